@@ -148,6 +148,13 @@ class CallMixin:
                 return VPtr(-2)
             if nm == 'same_except':
                 return self.spec_same_except(node)
+            if nm == 'private':
+                # private(x): x was created by this call AND shares no mutable part with an older object (what deepcopy
+                # gives; what a shallow or "middle-deep" copy() does not give)
+                v = self.res(self.ev(node.args[0]))
+                if isinstance(v, VOpaque):
+                    return VBool(z3.And(models.birth(v.t) > 0, models.deep(v.t)))
+                self.limit('private() of a non-opaque object', node)
             if nm == 'fresh':
                 v = self.res(self.ev(node.args[0]))
                 if isinstance(v, VOpaque):
